@@ -439,7 +439,8 @@ def r_containment(ctx: Ctx, rule: str):
         for n in ctx.distinct_sites(ctx.nodes(afa, lambda n: n.op == "call" and isinstance(n.ast.func, ast.Attribute) and n.ast.func.attr == "setdefault" and n.ast.args
                                               and isinstance(n.ast.args[0], ast.Constant) and n.ast.args[0].value == "type")):
             v = n.ast.args[1] if len(n.ast.args) > 1 else None
-            ok = isinstance(v, ast.Call) and any(t.name in ("_get_type_from_annotation", "_get_arg_type_wrapper") for t in ctx.an.scope(afa).callee(v).targets)
+            lv = [x[2] for x in ctx.vals.leaves(n.func, n.env, v)] if v is not None else []
+            ok = bool(lv) and all(isinstance(x, ast.Call) and any(t.name in ("_get_type_from_annotation", "_get_arg_type_wrapper") for t in ctx.an.scope(afa).callee(x).targets) for x in lv)
             rep.ob(rule, "the argparse `type` of every command argument is a wrapped converter", ok, node=n)
     # (iii) who calls pool members
     n_roe = 0
@@ -453,7 +454,9 @@ def r_containment(ctx: Ctx, rule: str):
             rep.ob(rule, "the result of return_or_exception is awaited", awaited, node=c)
     rep.floor(rule, "return_or_exception call sites in session.py", n_roe, 3)
     execs = ctx.distinct_sites(ctx.nodes(f, lambda n: ctx.is_call_to(n, "_exec_method_and_respond", "_exec_property_and_respond")))
-    rep.floor(rule, "dispatch calls in _parse_command", len(execs), 2)
+    exec_all = ctx.nodes(f, lambda n: ctx.is_call_to(n, "_exec_method_and_respond", "_exec_property_and_respond"))
+    # (one call expression may stand for both executors when the callee is chosen by a helper: count what is called)
+    rep.floor(rule, "dispatch calls in _parse_command", len({(id(n.ast), t.name) for n in exec_all for c_ in (n.callee, n.awaited) if c_ is not None for t in c_.targets}), 2)
     pnodes = [n for n in g.nodes if any(n.ast is p.ast for p in parses) and n.op == "call"]
     unparsed = reached_without(ctx, f, pnodes, [x for x in g.nodes if any(x.ast is e.ast and x.op == e.op for e in execs)])
     for e in execs:
@@ -665,21 +668,20 @@ def r_dispatch(ctx: Ctx, rule: str):
     pos_name = var_name = None
     for c in calls:
         a = c.ast.args
-        ok = len(a) == 3 and isinstance(a[0], ast.Name) and a[0].id == mp and all(isinstance(x, ast.Starred) and isinstance(x.value, ast.Name) for x in a[1:]) \
+        ok = len(a) == 3 and V.is_param(f, a[0], mp) and all(isinstance(x, ast.Starred) for x in a[1:]) \
             and len(c.ast.keywords) == 1 and c.ast.keywords[0].arg is None and isinstance(c.ast.keywords[0].value, ast.Name) and c.ast.keywords[0].value.id == kw
+        srcs = [V.trace_var(c.func, c.env, x.value) for x in a[1:]] if ok else []
+        ok = ok and all(isinstance(leaf, ast.Name) for _fr, _env, leaf in srcs)
         rep.ob(rule, "the member is called as method(*positional, *var_positional, **remaining keywords)", ok, node=c)
         if ok:
-            pos_name, var_name = a[1].value.id, a[2].value.id
-    if lp is not None and pos_name and var_name and lp_node.func is not f:
-        # the lists are filled by a spliced helper and come back as `return positional, variadic`
-        tp, tv = V.tuple_return_var(f, None, pos_name), V.tuple_return_var(f, None, var_name)
-        if tp is not None and tv is not None and tp[0] is lp_node.func and tv[0] is lp_node.func:
-            pos_name, var_name = tp[2], tv[2]
-            # the keyword dictionary under the helper's name for it
-            kw = next((pn for pn, (_c, arg, _e) in tp[1].items() if isinstance(arg, ast.Name) and arg.id == kw), kw)
-        else:
-            pos_name = var_name = None
-            rep.ob(rule, "the positional lists built by the helper are the ones unpacked into the call", None, func=f, construct="(helper result not understood)")
+            (pf, penv, pl), (vf, venv, vl) = srcs
+            if lp is not None and pf is lp_node.func and vf is lp_node.func:
+                pos_name, var_name = pl.id, vl.id
+                if pf is not f and penv:
+                    # the keyword dictionary under the name the helper (which fills the lists and hands them back) has for it
+                    kw = next((pn for pn, (_c, arg, _e) in penv.items() if isinstance(arg, ast.Name) and arg.id == kw), kw)
+            elif lp is not None:
+                rep.ob(rule, "the positional lists built by the loop over the signature are the ones unpacked into the call", None, func=f, construct="(lists not traced to the loop's function)")
     if lp is not None and pos_name and var_name and isinstance(lp.target, ast.Name):
         pv = lp.target.id
         lf = lp_node.func
@@ -838,62 +840,77 @@ def r_return_or_exception(ctx: Ctx, rule: str):
     fn = f.param_names()[0]
     va = f.node.args.vararg.arg if f.node.args.vararg else None
     kw = f.node.args.kwarg.arg if f.node.args.kwarg else None
-    ucalls = ctx.nodes(f, lambda n: n.op == "call" and n.callee is not None and n.callee.kind == "user" and isinstance(n.ast.func, ast.Name) and n.ast.func.id == fn)
+    V = ctx.vals
+    sc = ctx.an.scope(f)
+
+    def is_root_param(n, e: ast.AST, pname: Optional[str]) -> bool:
+        """e, evaluated at step n (possibly inside a helper spliced into f), is f's never re-bound parameter pname"""
+        if pname is None:
+            return False
+        fr, env, leaf = V.trace(n.func, n.env, e)
+        return fr is f and not env and V.is_param(f, leaf, pname)
+
+    ucalls = ctx.nodes(f, lambda n: n.op == "call" and n.callee is not None and n.callee.kind == "user" and is_root_param(n, n.ast.func, fn))
     rep.floor(rule, "calls of the member", len(ctx.distinct_sites(ucalls)), 1)
     res = count_paths(ctx.an, f, lambda n: n in ucalls, interproc=False, started=True)
     for k, c in sorted(res.items(), key=str):
         rep.ob(rule, "the member is called exactly once", c == frozenset({1}), func=f, construct=f"exit {k[0]}", detail=str(sorted(c)))
-    V = ctx.vals
-    sc = ctx.an.scope(f)
     for u in ctx.distinct_sites(ucalls):
         c = u.ast
-        fwd = len(c.args) == 1 and isinstance(c.args[0], ast.Starred) and V.is_param(f, c.args[0].value, va) and \
-            len(c.keywords) == 1 and c.keywords[0].arg is None and V.is_param(f, c.keywords[0].value, kw)
+        fwd = len(c.args) == 1 and isinstance(c.args[0], ast.Starred) and is_root_param(u, c.args[0].value, va) and \
+            len(c.keywords) == 1 and c.keywords[0].arg is None and is_root_param(u, c.keywords[0].value, kw)
         rep.ob(rule, "the member is called with exactly the converted arguments (*args, **kwargs)", fwd, node=u)
 
-    def mentions(e: ast.AST) -> bool:
+    def mentions(t: Node) -> bool:
+        from types import SimpleNamespace
+        e = t.ast
         inner = e.operand if isinstance(e, ast.UnaryOp) and isinstance(e.op, ast.Not) else e
-        inner = V.resolve(f, inner)  # also a once-bound flag: must_await = iscoroutinefunction(fn)
-        return any(isinstance(c, ast.Call) and isinstance(c.func, ast.Name) and c.func.id == "iscoroutinefunction" and c.args and V.is_param(f, c.args[0], fn)
-                   for c in ast.walk(inner))
+        # also a flag: must_await = iscoroutinefunction(fn), possibly computed by a helper and handed back inside its result
+        fr, env, leaf = V.trace(t.func, t.env, inner)
+        at = SimpleNamespace(func=fr, env=env)
+        return any(isinstance(c, ast.Call) and isinstance(c.func, ast.Name) and c.func.id == "iscoroutinefunction" and c.args and is_root_param(at, c.args[0], fn)
+                   for c in ast.walk(leaf))
 
-    tests = ctx.distinct_sites(ctx.nodes(f, lambda n: n.op == "test" and mentions(n.ast)))
+    tests = ctx.distinct_sites(ctx.nodes(f, lambda n: n.op == "test" and mentions(n)))
     rep.ob(rule, "coroutine functions are recognised", bool(tests), func=f, construct=tests[0] if tests else "(no iscoroutinefunction test)")
 
     def is_coro(a: Node, b: Node, lab: Label) -> bool:
         if lab[0] not in NORMAL_KINDS:
             return False
-        if a.op == "test" and lab[0] in ("T", "F") and mentions(a.ast):
+        if a.op == "test" and lab[0] in ("T", "F") and mentions(a):
             neg = isinstance(a.ast, ast.UnaryOp) and isinstance(a.ast.op, ast.Not)
             return (lab[0] == "T") != neg
         return True
+
+    def value_leaves(n: Node, x_: ast.AST) -> List[ast.AST]:
+        """what the expression may stand for, through locals, helper results and their components, and through `await`"""
+        out: List[ast.AST] = []
+        seen_ids: Set[int] = set()
+
+        def flatten(fr, env, e_: ast.AST, depth: int = 0) -> None:
+            for fr2, env2, x in V.leaves(fr, env, e_):
+                if id(x) in seen_ids or depth > 6:
+                    continue
+                seen_ids.add(id(x))
+                if isinstance(x, ast.Await):
+                    flatten(fr2, env2, x.value, depth + 1)  # `output = await output`: what was awaited
+                else:
+                    out.append(x)
+        flatten(n.func, n.env, x_)
+        return out
 
     if tests:
         live = [u for u in ucalls if u in reach([g.entry], is_coro)]
         for u in ctx.distinct_sites(live):
             copies = [x for x in live if x.ast is u.ast]
-            awaits = {m for m in g.nodes if m.op == "await" and any(x is u.ast for x in V.alts(f, m.ast.value))}
+            awaits = {m for m in g.nodes if m.op == "await" and any(x is u.ast for x in value_leaves(m, m.ast.value))}
             escaped = g.exit in reach(copies, is_coro, avoid=awaits)
             rep.ob(rule, "a coroutine method (gather-and-close, flush, until-closed) is awaited before replying", bool(awaits) and not escaped, node=u)
     # what is returned: the member's result (awaited or not), or - from the handler - the exception it raised
     excvars = {nm for nm, hows in sc.defs.items() if any(h[0] == "exc" for h in hows)}
     for r in ctx.distinct_sites(ctx.nodes(f, lambda n: n.op == "return")):
         v = r.ast.value
-        leaves = []
-        seen_ids = set()
-
-        def flatten(x_: ast.AST, depth: int = 0) -> None:
-            for x in V.alts(f, x_):
-                if id(x) in seen_ids or depth > 6:
-                    continue
-                seen_ids.add(id(x))
-                if isinstance(x, ast.Await):
-                    flatten(x.value, depth + 1)  # `output = await output`: what was awaited
-                else:
-                    leaves.append(x)
-
-        if v is not None:
-            flatten(v)
+        leaves = value_leaves(r, v) if v is not None else []
         exc_leaves = [x for x in leaves if isinstance(x, ast.Name) and x.id in excvars]
         res_leaves = [x for x in leaves if x not in exc_leaves]
         in_handler = any(True for h in ctx.nodes(f, lambda n: n.op == "handler") if r in reach([h], lambda a, b, lab: lab[0] in NORMAL_KINDS))
@@ -913,6 +930,85 @@ def conjuncts(e: ast.AST) -> List[ast.AST]:
     if isinstance(e, ast.BoolOp) and isinstance(e.op, ast.And):
         return [c for v in e.values for c in conjuncts(v)]
     return [e]
+
+
+def dnf(ctx: Ctx, fr: FuncInfo, env, e: ast.AST, _depth: int = 0):
+    """Disjunctive normal form of a condition as a set of conjunctions (sorted tuples of atom texts, `!` = negated), with
+    locals/helper parameters resolved and calls of spliced boolean helpers expanded (`if c: return v` chains); None when the
+    condition is not understood."""
+    from ..cfg import bind_args
+
+    e = strip_cast(e)
+    if _depth > 6:
+        return None
+    if isinstance(e, ast.Constant):
+        return {()} if e.value else set()
+    if isinstance(e, ast.Call) and isinstance(e.func, ast.Name) and e.func.id == "bool" and len(e.args) == 1 and not e.keywords:
+        return dnf(ctx, fr, env, e.args[0], _depth + 1)
+    if isinstance(e, ast.BoolOp):
+        parts = [dnf(ctx, fr, env, v, _depth + 1) for v in e.values]
+        if any(p_ is None for p_ in parts):
+            return None
+        if isinstance(e.op, ast.Or):
+            return set().union(*parts)
+        out = {()}
+        for p_ in parts:
+            out = {tuple(sorted(set(a + b))) for a in out for b in p_}
+        return out
+    if isinstance(e, ast.UnaryOp) and isinstance(e.op, ast.Not):
+        inner = dnf(ctx, fr, env, e.operand, _depth + 1)
+        if inner is None:
+            return None
+        # negation of a disjunction of single atoms
+        if all(len(c) == 1 for c in inner):
+            return {tuple(sorted((a[1:] if a.startswith("!") else "!" + a) for (a,) in inner))} if inner else {()}
+        return None
+    if isinstance(e, ast.Name):
+        r = ctx.vals.resolve(fr, e)
+        if r is not e:
+            return dnf(ctx, fr, env, r, _depth + 1)
+    call = e.value if isinstance(e, ast.Await) else e
+    call = strip_cast(call)
+    if isinstance(call, ast.Call) and id(call) in ctx.an.spliced_at:
+        t = ctx.an.spliced_at[id(call)]
+        sub = bind_args(call, t, fr, env)
+        out = set()
+        pre = {()}
+        body = [st for st in t.node.body if not (isinstance(st, ast.Expr) and isinstance(st.value, ast.Constant))]
+        for st in body:
+            if isinstance(st, ast.If) and not st.orelse and len(st.body) == 1 and isinstance(st.body[0], ast.Return):
+                c_ = dnf(ctx, t, sub, st.test, _depth + 1)
+                v_ = dnf(ctx, t, sub, st.body[0].value, _depth + 1) if st.body[0].value is not None else set()
+                if c_ is None or v_ is None:
+                    return None
+                out |= {tuple(sorted(set(p_ + a + b))) for p_ in pre for a in c_ for b in v_}
+                if not all(len(c) == 1 for c in c_):
+                    return None
+                neg = tuple(sorted((a[1:] if a.startswith("!") else "!" + a) for (a,) in c_))
+                pre = {tuple(sorted(set(p_ + neg))) for p_ in pre}
+            elif isinstance(st, ast.Return):
+                v_ = dnf(ctx, t, sub, st.value, _depth + 1) if st.value is not None else set()
+                if v_ is None:
+                    return None
+                out |= {tuple(sorted(set(p_ + b))) for p_ in pre for b in v_}
+                break
+            else:
+                return None
+        # absorption: A or (!A and B)  ==  A or B
+        changed = True
+        while changed:
+            changed = False
+            for c in list(out):
+                for a in c:
+                    if a.startswith("!") and (a[1:],) in out:
+                        out.discard(c)
+                        out.add(tuple(x for x in c if x != a))
+                        changed = True
+                        break
+                if changed:
+                    break
+        return out
+    return {(ctx.vals.canon_at(fr, env, e).replace(" ", ""),)}
 
 
 def tests_matching(ctx: Ctx, f: FuncInfo, texts) -> List[Node]:
@@ -1185,9 +1281,8 @@ def r_surface(ctx: Ctx, rule: str):
         skip = [n for n in src_lp.body if isinstance(n, ast.If) and not n.orelse and n.body and isinstance(n.body[-1], ast.Continue) and len(n.body) == 1]
         conds = set()
         for s_ in skip:
-            disj = s_.test.values if isinstance(s_.test, ast.BoolOp) and isinstance(s_.test.op, ast.Or) else [s_.test]
-            for d_ in disj:
-                conds.add(tuple(sorted(ctx.vals.canon_at(src_fn, src_env, c_).replace(" ", "") for c_ in conjuncts(d_))))
+            d_ = dnf(ctx, src_fn, src_env, s_.test)
+            conds |= d_ if d_ is not None else {("?" + ast.unparse(s_.test),)}
         want = {(f"{snv}inomit_members",), tuple(sorted([f"{snv}.startswith('_')", "public_only"]))}
         ok = conds == want
         rep.ob(rule, "exactly the members whose name starts with '_' are hidden (when public_only) besides explicit omissions", ok, func=f, construct=skip[0].test if skip else "(no skip test)",
